@@ -1,9 +1,9 @@
 import TabulaModel.Model.Filters
-import TabulaModel.Gen.Tables
+import TabulaModel.Gen.FilterTable
 /-!
 # C05 — regenerated tie: filter names and abbreviations
 
-`Gen/Tables.lean` is rewritten from the `switch filterName` of `core.decodeWithFilter` on
+`Gen/FilterTable.lean` is rewritten from the filter-name switch of package core on
 every check run.
 -/
 namespace Tabula.C05
